@@ -105,6 +105,15 @@ def nondeterminism(fn: ast.FunctionDef):
                 out.append((n.lineno, f"calls {ast.unparse(f)}"))
             if nm == "join" and n.args and is_set(n.args[0]):
                 out.append((n.lineno, "joins a set"))
+            if nm == "pop" and isinstance(f, ast.Attribute) and is_set(f.value) and not n.args:
+                out.append((n.lineno, f"takes an arbitrary element of a set: {ast.unparse(n)[:40]}"))
+            if nm in ("list", "tuple", "iter", "next", "enumerate", "zip", "dict") and isinstance(f, ast.Name) and n.args and is_set(n.args[0]):
+                out.append((n.lineno, f"reads a set in hash order: {ast.unparse(n)[:40]}"))
+            if nm == "next" and isinstance(f, ast.Name) and n.args and isinstance(n.args[0], ast.Call) and isinstance(n.args[0].func, ast.Name) \
+                    and n.args[0].func.id == "iter" and n.args[0].args and is_set(n.args[0].args[0]):
+                out.append((n.lineno, f"takes an arbitrary element of a set: {ast.unparse(n)[:40]}"))
+        if isinstance(n, ast.Assign) and isinstance(n.targets[0], (ast.Tuple, ast.List)) and is_set(n.value):
+            out.append((n.lineno, f"unpacks a set in hash order: {ast.unparse(n)[:40]}"))
         if isinstance(n, (ast.For, ast.comprehension)) and is_set(n.iter):
             out.append((getattr(n, "lineno", getattr(n.iter, "lineno", 0)), f"iterates a set: {ast.unparse(n.iter)[:40]}"))
     return sorted(set(out))
